@@ -785,5 +785,92 @@ theorem all_passes_good (E : TimedEnv P) (g G : Rat) (hJ0 : E.J = 0) (hlam : lam
       have ⟨gp, rd⟩ := ready_of_outcome E g G L.v4 L.v5 i a A 7 kA w L' w' hJ0 hlam hg ok hlen hi K.hget hA ho
       exact ⟨gp, ih L' w' rd⟩
 
+/-! ## why consecutive alarms are at most one hour apart: the hourly entries of `_SET24` -/
+
+/-- strictly increasing times of day (`sorted(…)` of a set of distinct times) -/
+def SortedTT (P : MtPrims σ T DT B) (tt : List T) : Prop :=
+  ∀ (i j : Nat) (x y : T), tt[i]? = some x → tt[j]? = some y → i < j → todS P x < todS P y
+
+/-- every full hour is in the timetable (`_SET24`) -/
+def Hourly (P : MtPrims σ T DT B) (tt : List T) : Prop :=
+  ∀ h : Nat, h < 24 → ∃ t ∈ tt, todS P t = 3600 * (h : Rat)
+
+theorem hour_of (x : Rat) (h0 : 0 ≤ x) (n : Nat) (hn : x < 3600 * (n : Rat)) :
+    ∃ h : Nat, h < n ∧ 3600 * (h : Rat) ≤ x ∧ x < 3600 * ((h : Rat) + 1) := by
+  induction n with
+  | zero => exfalso; simp at hn; linarith
+  | succ n ih =>
+    by_cases hx : x < 3600 * (n : Rat)
+    · obtain ⟨h, a, b, c⟩ := ih hx
+      exact ⟨h, by omega, b, c⟩
+    · refine ⟨n, by omega, by linarith, ?_⟩
+      push_cast at hn; linarith
+
+/-- **the longest distance in a sorted timetable that contains the 24 full hours is one hour** -/
+theorem gap_le_hour (E : TimedEnv P) (tt : List T) (hs : SortedTT P tt) (hh : Hourly P tt) (i : Nat)
+    (hi : i < tt.length) : nextGap P tt i ≤ 3600 := by
+  obtain ⟨x, hx⟩ : ∃ x, tt[i]? = some x := ⟨tt[i], List.getElem?_eq_getElem hi⟩
+  have xr := E.tod_range x
+  have hd : secPerDay = (86400 : Rat) := rfl
+  rw [hd] at xr
+  obtain ⟨h, h24, hlo, hhi⟩ := hour_of (todS P x) xr.1 24 (by push_cast; linarith [xr.2])
+  -- an entry at a later full hour lies behind `i`
+  have later : h + 1 < 24 → ∃ j t, tt[j]? = some t ∧ todS P t = 3600 * ((h : Rat) + 1) ∧ i < j := by
+    intro hlt
+    obtain ⟨t, ht, htod⟩ := hh (h + 1) hlt
+    obtain ⟨j, hj⟩ := List.mem_iff_getElem?.mp ht
+    push_cast at htod
+    refine ⟨j, t, hj, htod, ?_⟩
+    by_contra hij
+    rcases Nat.lt_or_ge j i with hji | hji
+    · have := hs j i t x hj hx hji; linarith
+    · have e : j = i := by omega
+      rw [e, hx] at hj
+      have : x = t := by simpa using hj
+      rw [this] at hhi; linarith
+  by_cases hw : i + 1 < tt.length
+  · obtain ⟨y, hy⟩ : ∃ y, tt[i + 1]? = some y := ⟨tt[i + 1], List.getElem?_eq_getElem hw⟩
+    rw [nextGap_step tt i x y hx hy hw]
+    have yr := E.tod_range y
+    rw [hd] at yr
+    by_cases hlt : h + 1 < 24
+    · obtain ⟨j, t, hj, htod, hij⟩ := later hlt
+      rcases Nat.lt_or_ge (i + 1) j with h1 | h1
+      · have := hs (i + 1) j y t hy hj h1; linarith
+      · have e : j = i + 1 := by omega
+        rw [e, hy] at hj
+        have : y = t := by simpa using hj
+        rw [this]; linarith
+    · have e : (h : Rat) = 23 := by
+        have : h = 23 := by omega
+        rw [this]; norm_num
+      rw [e] at hlo; linarith [yr.2]
+  · have hlast : i + 1 = tt.length := by omega
+    obtain ⟨y, hy⟩ : ∃ y, tt[0]? = some y := ⟨tt[0], List.getElem?_eq_getElem (by omega)⟩
+    rw [nextGap_wrap tt i x y hx hy hlast, hd]
+    have yr := E.tod_range y
+    have h23 : ¬ h + 1 < 24 := by
+      intro hlt
+      obtain ⟨j, t, hj, _, hij⟩ := later hlt
+      have : j < tt.length := by
+        by_contra hh'
+        rw [List.getElem?_eq_none (by omega)] at hj; simp at hj
+      omega
+    have e : (h : Rat) = 23 := by
+      have : h = 23 := by omega
+      rw [this]; norm_num
+    rw [e] at hlo
+    -- the first entry is midnight
+    obtain ⟨t0, ht0, htod0⟩ := hh 0 (by omega)
+    obtain ⟨j, hj⟩ := List.mem_iff_getElem?.mp ht0
+    have y0 : todS P y ≤ 0 := by
+      rcases Nat.eq_zero_or_pos j with hj0 | hj0
+      · rw [hj0, hy] at hj
+        have : y = t0 := by simpa using hj
+        rw [this, htod0]; simp
+      · have := hs 0 j y t0 hy hj hj0
+        rw [htod0] at this; simp at this; linarith
+    linarith
+
 end timing
 end Edzed.Cron
